@@ -130,6 +130,56 @@ fn run_case<G: AffineRepr>(env: &Env<G>, c: &Case) -> CaseOut {
                 }
             }
             if matches!(c.work, Work::Fields) {
+                // every point field offset by a point outside the prime-order subgroup (cofactor curves)
+                if let Some(t) = env.torsion {
+                    use ark_ec::CurveGroup;
+                    for i in 0..hm.n_points() {
+                        let mut m = hm.clone();
+                        *m.point_mut(i) = (hm.point(i).into_group() + t.into_group()).into_affine();
+                        let b = m.to_bytes();
+                        let nm = format!("{}:+torsion", hm.point_name(i));
+                        judge_bytes::<G>(env, &mut o, &prog, &po.vs, &orig, &b, &|| nm.clone(), "torsion");
+                    }
+                }
+                // adaptive pairs: with the round challenges observed on the original proof, two round
+                // points are offset so that the combined check is unchanged *if the challenges stay the
+                // same* (they must not: every round point feeds its own and all later challenges)
+                if k >= 1 {
+                    use ark_ec::CurveGroup;
+                    let vo0 = crate::interp::cur::verify_program::<G>(&prog, &po.vs, proof, &env.pc, &env.bp);
+                    let (chals, _) = chals_of::<G>(&vo0.log, vo0.st.model.chals.len());
+                    if let Some(ch) = chals {
+                        if ch.uk.len() >= k {
+                            let x = env.pc.B;
+                            let mut pairs: Vec<(String, Mirror<G>)> = vec![];
+                            for j in 0..k {
+                                let u = ch.uk[j];
+                                let ui = ark_ff::Field::inverse(&u).unwrap();
+                                // L_j += u^-2 X, R_j -= u^2 X
+                                let mut m = hm.clone();
+                                m.ipp.L[j] = (m.ipp.L[j].into_group() + crate::refv::smul(&x, ui * ui)).into_affine();
+                                m.ipp.R[j] = (m.ipp.R[j].into_group() - crate::refv::smul(&x, u * u)).into_affine();
+                                pairs.push((format!("adaptive(L[{}],R[{}])", j, j), m));
+                                if j + 1 < k {
+                                    let v = ch.uk[j + 1];
+                                    let vi = ark_ff::Field::inverse(&v).unwrap();
+                                    let mut m = hm.clone();
+                                    m.ipp.R[j] = (m.ipp.R[j].into_group() + crate::refv::smul(&x, u * u)).into_affine();
+                                    m.ipp.R[j + 1] = (m.ipp.R[j + 1].into_group() - crate::refv::smul(&x, v * v)).into_affine();
+                                    pairs.push((format!("adaptive(R[{}],R[{}])", j, j + 1), m));
+                                    let mut m = hm.clone();
+                                    m.ipp.L[j] = (m.ipp.L[j].into_group() + crate::refv::smul(&x, ui * ui)).into_affine();
+                                    m.ipp.L[j + 1] = (m.ipp.L[j + 1].into_group() - crate::refv::smul(&x, vi * vi)).into_affine();
+                                    pairs.push((format!("adaptive(L[{}],L[{}])", j, j + 1), m));
+                                }
+                            }
+                            for (nm, m) in pairs {
+                                let b = m.to_bytes();
+                                judge_bytes::<G>(env, &mut o, &prog, &po.vs, &orig, &b, &|| nm.clone(), "adaptive-pair");
+                            }
+                        }
+                    }
+                }
                 // opposite offsets of one scalar in two copies (their residuals are exactly opposite
                 // for the scalars the transcript does not absorb): the batch must still reject
                 for i in 0..5usize {
